@@ -224,6 +224,18 @@ def run(ctx):  # noqa: C901, PLR0912, PLR0915
                 reraises = any(isinstance(x, ast.Raise) for x in ast.walk(n))
                 ctx.ob('C13.R3', f'{ep} catch-all answers', answers and not reraises,
                        f'{ep}: the catch-all handler sends an HTTP status and does not re-raise', fi=fi, node=n)
+    # _compress_if_supported runs after the status line was started and outside the catch-all (it is on the SAFE list): that is
+    # only right if parsing the peer's Accept-Encoding header cannot raise - checked here, not assumed
+    from engine.raises import escapes as _escapes
+    ph = repo.func('sdc11073.httpserver.compression.CompressionHandler.parse_header')
+    esc = _escapes(ph, repo)
+    ctx.ob('C13.R3', 'Accept-Encoding parsing is total', not esc,
+           'CompressionHandler.parse_header: every construct that can raise on a malformed header (index into a split result, '
+           'float()) is inside a handler for that exception' if not esc else
+           f'CompressionHandler.parse_header can raise {sorted({e for e, _n, _w in esc})} on a malformed Accept-Encoding header '
+           f'({esc[0][2]}); it is called by _compress_if_supported after the response was started and outside any handler: the '
+           f'exception leaves do_POST / do_GET and the peer gets no response', fi=ph, node=esc[0][1] if esc else None,
+           witness=[w for _e, _n, w in esc])
     # the middleware entry points are contained, too
     for m in ('do_post', 'do_get'):
         fi = repo.func(f'sdc11073.dispatch.messageconverter.MessageConverterMiddleware.{m}')
@@ -259,6 +271,30 @@ def run(ctx):  # noqa: C901, PLR0912, PLR0915
                        f'{fi.name}: {unparse(st.value)} may return b"" forever at end of stream and nothing in the loop '
                        f'reacts to it: the request thread spins without terminating', fi=fi, node=st)
     ctx.floor('C13.R4', n_loops, 3, 'read loops in httpreader.py')
+    # a request body is never read "until EOF": on a kept-alive connection that blocks for ever.  An unbounded read() in
+    # read_request_body is tolerated only in a handler that a string Content-Length cannot reach (int(str) raises ValueError
+    # only - a handler for TypeError alone is dead for header strings)
+    from engine.raises import _is_subclass, handler_names
+    rb = repo.func('sdc11073.httpserver.httpreader.HTTPReader.read_request_body')
+    n_unb = 0
+    for c in calls_in(rb.node, 'read'):
+        if c.args or c.keywords or not isinstance(c.func, ast.Attribute):
+            continue
+        n_unb += 1
+        cur, child, handler = getattr(c, '_parent', None), c, None
+        while cur is not None and cur is not rb.node:
+            if isinstance(cur, ast.ExceptHandler):
+                handler = cur
+                break
+            child, cur = cur, getattr(cur, '_parent', None)
+        reachable = handler is None or any(nm and _is_subclass('ValueError', nm, repo) for nm in handler_names(handler))
+        ctx.ob('C13.R4', f'unbounded {unparse(c)}', not reachable,
+               f'read_request_body: {unparse(c)} sits in a handler that a malformed Content-Length string cannot reach'
+               if not reachable else
+               f'read_request_body: {unparse(c)} reads the request stream until EOF and is reachable for a peer-supplied '
+               f'Content-Length (handler for {handler_names(handler) if handler else "no exception at all"}): on a kept-alive '
+               f'connection the request thread blocks for ever and the peer gets no response', fi=rb, node=c)
+    ctx.notes.append(f'C13.R4: {n_unb} unbounded read() call(s) in read_request_body examined')
     for q in ('sdc11073.httpserver.httpreader.HTTPReader._read_dechunk',
               'sdc11073.httpserver.httpreader.HTTPReader.read_request_body'):
         fi = repo.func(q)
